@@ -25,10 +25,22 @@ used here), so every lockup / marker primitive and every lemma about it is reuse
 (`shares = tokens · 10¹⁸` for every validator, nobody slashed) the two models agree (`Props/C11.lean`,
 `rate_one_*`); the driver runs THIS model.
 
+Failing inner steps of the two all-or-nothing branches (`osmoutils.ApplyFuncIfNoError`: an error or a recovered panic
+discards everything the branch wrote; the callers `AfterAddTokensToLock` and `RefreshIntermediaryDelegationAmounts` log
+the error and go on):
+* `Delegate` refuses a validator whose exchange rate is invalid — no tokens but outstanding shares, the state a 100 %
+  slash leaves (`ErrDelegatorShareExRateInvalid`, checked AFTER superfluid has found the validator);
+* `Delegate` → `AddValidatorTokensAndShares` → `SetValidatorByPowerIndex` panics (`Int64() out of bound`) when the
+  validator's new tokens reach `2⁶³` power units (`powerOverflows`): the last step of the branch;
+* `ValidateUnbondAmount` refuses a validator without tokens and an amount worth more shares than the delegation has.
+A 100 % slash itself (`removeTokensFromLock` leaves a lock without coins, which the lock model does not represent:
+`Err.unmodelled` in `slashLock`) is modelled as the composite `slashRefillS`: the slash and, straight after it, the
+top-up (`AddTokensToLockByID`) of every lock it emptied — so that no state of a history holds an empty lock.
+
 Outside the model: unbonding / redelegation entries (the intermediary accounts never have any: they leave through
 `InstantUndelegate`), jailing and the validator-set update of the staking EndBlocker, the distribution module's
-reward bookkeeping triggered by the delegation hooks (no rewards are allocated in the engine), a 100 % slash
-(`removeTokensFromLock` leaves a lock without coins: `Err.unmodelled`).
+reward bookkeeping triggered by the delegation hooks (no rewards are allocated in the engine), a lock left without
+coins by a 100 % slash and not topped up.
 -/
 import OsmoVerif.Model.Superfluid
 
@@ -101,13 +113,26 @@ def Val.removeDelShares (v : Val) (sh : Int) : Option (Val × Int) :=
       | none => none
       | some t => if v.tokens - t < 0 then none else some ({ tokens := v.tokens - t, shares := rem }, t)
 
+/-! ## the validator power index (x/staking/keeper/validator.go, types/keys.go) -/
+
+/-- cosmos-sdk `types/staking.go` `DefaultPowerReduction` (what `StakingKeeper.PowerReduction` returns).  An SDK
+constant, not a constant of the osmosis tree: the engine reads it from the real keeper and sends it with every `reset`
+line, and the driver refuses a history whose value differs. -/
+def powerReduction : Int := 1000000
+
+/-- `SetValidatorByPowerIndex` → `GetValidatorsByPowerIndexKey` → `TokensToConsensusPower(tokens, powerReduction)` =
+`tokens.Quo(powerReduction).Int64()`, which panics when the quotient is not an `int64`. -/
+def powerOverflows (tokens : Int) : Bool := decide (2 ^ 63 ≤ Int.tdiv tokens powerReduction)
+
 /-! ## stake.go on top of the staking keeper -/
 
 def setVal (k : Stk) (i : Nat) (v : Val) : Stk := { k with val := upd k.val i v }
 def setDsh (k : Stk) (key : AccKey) (d : Option Int) : Stk := { k with dsh := updK k.dsh key d }
 
 /-- `mintOsmoTokensAndDelegate`: mint `amount`, offset it, send it to the intermediary account, `Delegate` it.
-Everything after the validator lookup runs inside `ApplyFuncIfNoError`: a panic there is an error. -/
+Everything after the validator lookup runs inside `ApplyFuncIfNoError`: an error or a panic there is an error of the
+call and NOTHING of the branch is written — the function returns the error alone, so a caller that goes on after a failed
+mint goes on from the state it had (`increaseHookS`, `refreshOneS`). -/
 def mintS (s : SState) (amount : Int) (key : AccKey) : Except Err SState :=
   if key.2 ∉ s.b.validators then .error .noval else
   if amount ≤ 0 then .error .other else            -- MintCoins rejects a zero coin (NewCoin panics below zero)
@@ -116,6 +141,7 @@ def mintS (s : SState) (amount : Int) (key : AccKey) : Except Err SState :=
   match v.addTokensFromDel amount with
   | none => .error .other
   | some (v', issued) =>
+    if powerOverflows v'.tokens then .error .other else         -- `SetValidatorByPowerIndex` panics, recovered
     let d := match s.k.dsh key with | some x => x | none => 0    -- a new delegation starts with zero shares
     match Dec.add d issued with
     | none => .error .other
@@ -394,12 +420,102 @@ def slashS (s : SState) (val : Nat) (powTok frac : Int) (skip : List Nat) : Exce
                  k := setVal s.k val { (s.k.val val) with tokens := (s.k.val val).tokens - burnAmount slashAmount (s.k.val val).tokens } },
                burnAmount slashAmount (s.k.val val).tokens)
 
+/-! ## a 100 % slash together with the top-up of the locks it empties -/
+
+/-- the amount the owner adds back to lock `id` straight after the slash. -/
+def refillOf : List (Nat × Int) → Nat → Option Int
+  | [], _ => none
+  | (i, a) :: r, id => if i = id then some a else refillOf r id
+
+/-- `slashSynthLock` as in `slashLock`, for a slash that may take the WHOLE amount (effective fraction one: the validator
+loses all its tokens).  `removeTokensFromLock` then leaves the lock without coins; the lock model has no such lock, so
+the step is taken together with the owner's `AddTokensToLockByID(id, a)` that follows (`refill`): the lock ends with
+`amount − t + a`, and the marker's accumulation store, `Decrease`d by `t` and `Increase`d by `a` at the marker's
+duration, changes by `a − t`.  An emptied lock that is not topped up is outside the model.  (The hook of the top-up
+runs later, when the validator has lost its tokens: `refillHooks`.) -/
+def slashLockR (b : State) (val : Nat) (f : Int) (skip : List Nat) (refill : List (Nat × Int)) (id : Nat) : Except Err State :=
+  if id ∈ skip then .ok b else
+  match b.locks id with
+  | none => .ok b
+  | some l =>
+    match b.synths id with
+    | [sy] =>
+      if sy.key.2 ≠ val then .ok b else
+      if (findAcc b.accs sy.key).isNone then .ok b else
+      if sy.key.1 ≠ l.denom then .ok b else
+      if l.single = false then .error .unmodelled else
+      match Dec.mul (l.amount * P18) f with
+      | none => .error .panic
+      | some sa =>
+        match Dec.truncateInt sa with
+        | none => .error .panic
+        | some t =>
+          if t ≤ 0 then .ok b else
+          if l.amount < t then .error .unmodelled else
+          match (if l.amount = t then refillOf refill id else some 0) with
+          | none => .error .unmodelled
+          | some a =>
+            if l.amount + (a - t) ≤ 0 then .error .unmodelled else
+            .ok { b with locks := upd b.locks id (some { l with amount := l.amount + (a - t) }),
+                         accum := updK b.accum (sy.kind, sy.key) (accAdd (b.accum (sy.kind, sy.key)) sy.duration (a - t)) }
+    | _ => .ok b
+
+def slashLocksR (b : State) (val : Nat) (f : Int) (skip : List Nat) (refill : List (Nat × Int)) : Nat → Except Err State
+  | 0 => .ok b
+  | n + 1 =>
+    match slashLocksR b val f skip refill n with
+    | .error e => .error e
+    | .ok b1 => slashLockR b1 val f skip refill (n + 1)
+
+/-- the hooks of the top-ups (`AfterAddTokensToLock` → `IncreaseSuperfluidDelegation`), in the order of the top-ups,
+AFTER the validator has been slashed: for a lock that is still delegated the hook tries to mint the value of the added
+amount — which `Delegate` refuses when the validator is left without tokens but with shares — and swallows the error.
+A listed lock that the slash did not empty (its amount is not the added amount) is outside the model. -/
+def refillHooks (s : SState) : List (Nat × Int) → Except Err SState
+  | [] => .ok s
+  | (id, a) :: r =>
+    match s.b.locks id with
+    | none => .error .unmodelled
+    | some l =>
+      if l.amount ≠ a then .error .unmodelled else
+      match increaseHookS s id l.denom a with
+      | .error e => .error e
+      | .ok s1 => refillHooks s1 r
+
+/-- the engine's composite op: `StakingKeeper.Slash` as in `slashS`, then `AddTokensToLockByID` for every lock the slash
+emptied.  The lock part of a top-up (amount, accumulation store) and its hook (validator, delegation, bank) touch
+disjoint parts of the state, and the lock part does not read what the slash writes to the validator: taking the lock
+parts together with the slash of the locks and the hooks after the validator update gives the state of the real
+sequence slash; top-up₁; …; top-upₙ. -/
+def slashRefillS (s : SState) (val : Nat) (powTok frac : Int) (skip : List Nat) (refill : List (Nat × Int)) : Except Err (SState × Int) :=
+  if frac < 0 then .error .other else
+  match Dec.mul (powTok * P18) frac with
+  | none => .error .panic
+  | some sd =>
+    match Dec.truncateInt sd with
+    | none => .error .panic
+    | some slashAmount =>
+      if val ∉ s.b.validators then .error .unmodelled else
+      if burnAmount slashAmount (s.k.val val).tokens = 0 then .error .unmodelled else
+      match Dec.quoRoundUp (burnAmount slashAmount (s.k.val val).tokens * P18) ((s.k.val val).tokens * P18) with
+      | none => .error .panic
+      | some eff0 =>
+        match (if capOne eff0 = 0 then .ok s.b else slashLocksR s.b val (capOne eff0) skip refill s.b.lastLockId) with
+        | .error e => .error e
+        | .ok b1 =>
+          match refillHooks { b := { b1 with supply := b1.supply - burnAmount slashAmount (s.k.val val).tokens },
+                              k := setVal s.k val { (s.k.val val) with tokens := (s.k.val val).tokens - burnAmount slashAmount (s.k.val val).tokens } }
+                            refill with
+          | .error e => .error e
+          | .ok s2 => .ok (s2, burnAmount slashAmount (s.k.val val).tokens)
+
 /-! ## histories -/
 
 inductive OpS
   | base (op : Op)
   | slash (val : Nat) (powTok frac : Int) (skip : List Nat)
   | epochO (ups : List (Nat × Int × Int × Bool)) (order : List AccKey)
+  | slashRefill (val : Nat) (powTok frac : Int) (skip : List Nat) (refill : List (Nat × Int))
 
 def applyOpIdS (s : SState) : OpS → Except Err (SState × Option Nat)
   | .base (.lock o d a du sg) => (createLock s.b o d a du sg).map fun r => ({ s with b := r.1 }, some r.2)
@@ -415,6 +531,7 @@ def applyOpIdS (s : SState) : OpS → Except Err (SState × Option Nat)
   | .base (.epoch ups) => (epochS s ups).map fun r => (r, none)
   | .slash v p f x => (slashS s v p f x).map fun r => (r.1, some r.2.toNat)
   | .epochO ups order => (epochOS s ups order).map fun r => (r, none)
+  | .slashRefill v p f x t => (slashRefillS s v p f x t).map fun r => (r.1, some r.2.toNat)
 
 def applyOpS (s : SState) (op : OpS) : Except Err SState := (applyOpIdS s op).map (·.1)
 
